@@ -22,6 +22,9 @@ class Check:
         self.tier = tier
         self.seed = seed
         self.t0 = time.time()
+        # wall-clock budget of the whole check: explorations stop when it is used up (the check then ends inconclusive, exit 2,
+        # unless a violation was already confirmed); a watchdog thread (main) is the last resort for a single stuck solver call
+        self.budget_s = float(os.environ.get('VERIF_BUDGET_S', 1500 if tier == 'quick' else 4 * 3600))
         self.known = [f for f in load_known().get('findings', []) if f['property'] == pid or pid in f.get('also_in', [])]
         self.known_seen = {}          # finding id -> description of the reproduced witness
         self.violations = []          # (what, scenario path)
@@ -57,6 +60,11 @@ class Check:
     def explore(self, harness, **kw):
         E = self.E
         b0 = E.stats['blocks']
+        left = self.budget_s - (time.time() - self.t0)
+        if left <= 0:
+            self.inconclusive.append('time budget of the check used up before this exploration')
+            return []
+        kw['budget_s'] = min(kw.get('budget_s') or left, left)
         res = E.explore(harness, **kw)
         self.states += len(res)
         self.transitions += E.stats['blocks'] - b0
@@ -474,6 +482,43 @@ def same(a, b, modbase=False):
     return z3.BoolVal(False)
 
 
+def _descendants(pid):
+    kids = {}
+    for d in os.listdir('/proc'):
+        if not d.isdigit():
+            continue
+        try:
+            with open(f'/proc/{d}/stat') as f:
+                st = f.read()
+            ppid = int(st[st.rindex(')') + 2:].split()[1])
+        except (OSError, ValueError):
+            continue
+        kids.setdefault(ppid, []).append(int(d))
+    out, stack = [], [pid]
+    while stack:
+        for k in kids.get(stack.pop(), []):
+            out.append(k)
+            stack.append(k)
+    return out
+
+
+def _start_watchdog(limit_s):
+    """a solver call that ignores its timeout must not hang the check for ever: after limit_s the process (and its workers,
+    solver and driver subprocesses) is ended with exit 2 (inconclusive) - never a pass, never a VIOLATION"""
+    import threading, signal
+
+    def dog():
+        time.sleep(limit_s)
+        print(f'INCONCLUSIVE: the check did not finish within {int(limit_s)} s (watchdog); nothing it explored so far is reported', flush=True)
+        for k in _descendants(os.getpid()):
+            try:
+                os.kill(k, signal.SIGKILL)
+            except OSError:
+                pass
+        os._exit(2)
+    threading.Thread(target=dog, daemon=True).start()
+
+
 def main(run):
     import argparse
     ap = argparse.ArgumentParser()
@@ -481,6 +526,7 @@ def main(run):
     ap.add_argument('--replay', default=None)
     a = ap.parse_args()
     seed = int(os.environ.get('VERIF_SEED', '0') or 0)
+    _start_watchdog(float(os.environ.get('VERIF_BUDGET_S', 1500 if a.tier == 'quick' else 4 * 3600)) * 1.5 + 120)
     try:
         rc = run(a.tier, seed, a.replay)
     except SystemExit:
